@@ -74,9 +74,12 @@ Section P.
     - destruct (veto c).
       + destruct (tsearch K Ms mode eps veto f v (set_nan c T) res) as [[[a1 a2] a3] a4] eqn:ET.
         inversion H; subst. eapply IH; [|exact ET]. intros r Hr. apply Hnan. apply Hres. exact Hr.
-      + destruct (dv_track Ms mode eps v c) as [v1 keep]. destruct keep; [|inversion H].
-        destruct (tsearch K Ms mode eps veto f v1 (set_nan c T) res) as [[[a1 a2] a3] a4] eqn:ET.
-        inversion H; subst. eapply IH; [|exact ET]. intros r Hr. apply Hnan. apply Hres. exact Hr.
+      + destruct (mbin Ms mode (k_inv K) v c).
+        * destruct (dv_track Ms mode eps v c) as [v1 keep]. destruct keep; [|inversion H].
+          destruct (tsearch K Ms mode eps veto f v1 (set_nan c T) res) as [[[a1 a2] a3] a4] eqn:ET.
+          inversion H; subst. eapply IH; [|exact ET]. intros r Hr. apply Hnan. apply Hres. exact Hr.
+        * destruct (tsearch K Ms mode eps veto f v (set_nan c T) res) as [[[a1 a2] a3] a4] eqn:ET.
+          inversion H; subst. eapply IH; [|exact ET]. intros r Hr. apply Hnan. apply Hres. exact Hr.
   Qed.
 
   (* ---- adjacency operations keep the matrix square with a zero diagonal ---- *)
